@@ -916,10 +916,43 @@ func c16EndToEnd(e *Env, site c16Site, astConst []byte, nctx int, tag string) {
 			}
 		}
 	}
+	// engines that are not fresh: an earlier release of every template is registered already; the cache is off;
+	// development mode is on — the compiled data registered afterwards is what renders
+	eng6, eng7, eng8, eng9 := twig.New(), twig.New(), twig.New(), twig.New()
+	eng7.SetCache(false)
+	eng8.SetDevelopmentMode(true)
+	for _, name := range names {
+		name := name
+		step(name, "pre-register old release", func() error {
+			if err := eng6.RegisterString(name, "OLD RELEASE of "+name); err != nil {
+				return err
+			}
+			if _, err := eng6.Render(name, nil); err != nil {
+				return err
+			}
+			return eng9.RegisterString(name, "OLD RELEASE of "+name)
+		})
+	}
+	for _, name := range names {
+		name := name
+		c := compiled[name]
+		if c == nil {
+			continue
+		}
+		data, _ := twig.SerializeCompiledTemplate(c)
+		step(name, "RegisterCompiledTemplate over an old release", func() error { return eng6.RegisterCompiledTemplate(c) })
+		step(name, "RegisterCompiledTemplate with the cache off", func() error { return eng7.RegisterCompiledTemplate(c) })
+		step(name, "LoadFromCompiledData in development mode", func() error { return eng8.LoadFromCompiledData(data) })
+		step(name, "LoadFromCompiledData over an old release", func() error { return eng9.LoadFromCompiledData(data) })
+	}
+	if !ok {
+		return
+	}
 	routes := []struct {
 		name string
 		eng  *twig.Engine
-	}{{"RegisterCompiledTemplate", eng2}, {"LoadFromCompiledData", eng3}, {"CompiledLoader", eng4}, {"CompiledLoader.LoadAll", eng5}}
+	}{{"RegisterCompiledTemplate", eng2}, {"LoadFromCompiledData", eng3}, {"CompiledLoader", eng4}, {"CompiledLoader.LoadAll", eng5},
+		{"RegisterCompiledTemplate-over-old-release", eng6}, {"RegisterCompiledTemplate-cache-off", eng7}, {"LoadFromCompiledData-development-mode", eng8}, {"LoadFromCompiledData-over-old-release", eng9}}
 	for i := 0; i < nctx; i++ {
 		ctx := c16Ctx(e.Rng)
 		for _, entry := range site.entries {
